@@ -15,4 +15,6 @@ Extraction "model_dp.ml"
   DpTables.pevent_code DpTables.pstate_code DpTables.opstate_code DpTables.all_pevents
   Telegram.decode Telegram.fc_to_byte
   DpOracle.mkStep DpOracle.contract_ok DpOracle.conf_sane DpOracle.c03_monitor DpOracle.c04_monitor
-  DpOracle.c07_monitor DpOracle.c08_monitor DpOracle.c14_monitor DpOracle.c07_cycles_needed DpOracle.c07_bound DpOracle.c07_known_f15.
+  DpOracle.c07_monitor DpOracle.c08_monitor DpOracle.c14_monitor DpOracle.c07_cycles_needed DpOracle.c07_bound DpOracle.c07_known_f15
+  DpOracle.c03_monitor_ra DpOracle.c04_monitor_ra DpOracle.c07_monitor_ra DpOracle.c08_monitor_ra DpOracle.c14_monitor_ra
+  DpOracle.ra_sane DpOracle.has_reset DpOracle.conf_after DpOracle.known_reset_while_pending.
